@@ -39,7 +39,7 @@ CONF = {
                    'satisfying machine_ok: C12_no_panic (tcpassembly; reassembly after the fix), C12_one_entry (one entry per key and '
                    'its reverse, map/free-list consistency), C12_mutex + C12_stream_owner_unique + C12_lock_owner (callbacks only in a '
                    'step that takes the free lock of the one object owning the stream), C12_progress (no deadlock; enabled threads '
-                   'step), C12_complete_once_partial (never twice). Refuted on the faithful model with explicit schedules, each '
+                   'step), C12_inorder_order (an assembler processes its packets in program order), C12_complete_once_partial (never twice); C12_lockset_without_recycling and C12_inorder_without_recycling prove the two refuted statements for the hypothetical configuration in which remove() does not recycle the object (so recycling is their only cause). Refuted on the faithful model with explicit schedules, each '
                    'replayed on the real code (corpus/C12): C12_no_panic_refuted (unchanged reassembly: FIXME panic, fixed), '
                    'C12_lockset_refuted_*, C12_inorder_refuted_* (stale pointer to a closed, recycled connection object: data reaches '
                    'the wrong stream, reset races with the reader), C12_complete_once_refuted_* (a recycled object that lost the insert '
